@@ -5,7 +5,7 @@ from vf.pyvc.lib import REG
 from vf.pyvc.jsonmodel import concretize, string_constants, model_strings
 from vf.check import Replay
 from vf import objgen as G
-from contracts import parsing as K
+from contracts import parsing as K, markings as KM
 
 LEVEL = 'other'
 JUNK = [None, True, False, 0, -1, 2**70, 10**400, 1.5, '', 'x', 'a' * 300, [], [None], [[]], [{}], ['x', 1], {}, {'a': None}, {'type': 'x'}, {'': {'': []}}, [{'a': [{'b': None}]}]]
@@ -115,7 +115,7 @@ def run(chk):
     c2 = K.dict_to_stix2_contract(); c2.replay = j_replay('dict_to_stix2')
     c3 = K.parse_contract()
     c4 = K.init_prefix_contract(); c4.replay = init_replay()
-    for c in (c1, c2, c3, c4):
+    for c in (c1, c2, c3, c4, KM.validate_contract(), KM.validate_selector_contract(), KM.evaluate_expression_contract()):
         chk.prove(c); chk.canary(c)
     # ---- structured inputs around the raw-input code of dict_to_stix2 / detect_spec_version (every branch of the proved functions, natively): unknown and known
     # types x extensions of every shape x extension_type of every JSON kind; bundles whose members have every shape
